@@ -271,9 +271,13 @@ CHECKS = {
             'does not answer sees a new position: size + 1 waves are enough); dependencies_rec_returns: dependencies(x, recurse=True) always returns, cycles included, with exactly the nodes reachable '
             'in one step or more (partial correctness by a loop invariant, dependencies_rec_reads; totality by the stack discipline of '
             'the work list: a second copy of a processed position is only popped after all its successors have been seen and pushes '
-            'nothing, so (size - |seen|) * (size + 1) + |queue| decreases at every round, depsLoop_total). That flatten(recurse=True) returns is a theorem (flatten_returns); that the result of several levels preserves the ordering '
-            'constraints is proved round by round (grafts_preserve_order) and checked as a whole against DepGraph and the set-level '
-            'oracle on every run.',
+            'nothing, so (size - |seen|) * (size + 1) + |queue| decreases at every round, depsLoop_total). That flatten(recurse=True) returns is a theorem (flatten_returns); flatten_order_preserved / flatten_order_all_plain: on every '
+            'well-founded, tree-like nesting of acyclic graphs (every node owned by the one nested node whose graph holds it) the '
+            'flattened graph is acyclic, holds exactly the plain nodes of the nesting, and two of them have to come one after the '
+            'other exactly when they had to in the nesting (between the plain nodes of the outer graph: exactly when they had to in '
+            'that graph) - all levels at once, hypotheses on the initial graph and the store only (invariant over the grafts: owners '
+            'of the nodes present have been grafted, graft_acyclic, order into / out of / inside a grafted graph). Nestings in which '
+            'one graph object stands at several places are checked against DepGraph and the set-level oracle on every run.',
             'Trusted: Lean kernel + standard axioms; correspondence sampled (exhaustive <= 4 nodes in thorough); node '
             'identity = Python id(); topological order compared for validity, not equality; graft/flatten only on '
             'acyclic expansions; c16_pinned_refuted keeps the pinned graft (A19) refuted.',
